@@ -654,7 +654,8 @@ PARTS = {
                      "src_tagged_*: the same through the functions regenerated from the current source",
                 oracles=dict({"tagged_rt": o_rt_c04}, **SRC_ORACLES_PUT), classify=_first(classify_rt, classify_src),
                 search=_searches(search_rt, search_src), trusted_base=SRC_TRUSTED, assumptions=SRC_ASSUME),
-    "C12": dict(coq_props=["Properties_C12_tagged"], files=FILES + ["src/varint.h"],
+    "C12": dict(coq_props=["Properties_C12_tagged", "Properties_C12_tagged_src"], files=FILES + ["src/varint.h"],
+                trusted_base=SRC_TRUSTED, assumptions=SRC_ASSUME,
                 generate=_chain(generate_add, generate_src_add),
                 rule="tagged add: (stored value, amount, grow?) with sums crossing every width boundary both ways and "
                      "the int64 overflow edges; non-trivial = every class except 'nogrow-same'",
